@@ -3,6 +3,7 @@ From Coq Require Import List NArith ZArith Bool Arith String.
 Import ListNotations.
 Require Import Scan Pos DQ SQ.
 Require Emit EmitGrows EmitLemmas EmitPrefix EmitSafe EmitSQ Plain EmitPlain AnalysisPlain.
+Require ParseL ParserGrammar EmitGrammar.
 
 (* KIND C05_double_quoted_scalar_roundtrip : U *)
 (* for EVERY text t over printable ASCII (spaces, apostrophes included), the 15 single-letter escapes and \xHH code points,
@@ -89,6 +90,35 @@ Theorem C05_analysed_plain_emit_then_scan : forall au text x r s, text <> [] -> 
       exists tok sc', scan_plain sc = Ok (tok, sc') /\ t_kind tok = TScalar text true SPlain /\ rest sc' = Plain.after x r.
 Proof. exact AnalysisPlain.analysed_plain_emit_then_scan. Qed.
 Eval vm_compute in "ASSUME:C05_analysed_plain_emit_then_scan"%string. Print Assumptions C05_analysed_plain_emit_then_scan.
+
+(* KIND C05_emitter_accepts_the_event_grammar : U *)
+(* EVERY list of events that the event grammar allows (a viable prefix of STREAM-START document* STREAM-END, the pushdown recogniser of
+   ParserGrammar.v read on event kinds) and every option set: the emitter model never answers with a structural EmitterError ("expected
+   NodeEvent / DocumentStartEvent / StreamStartEvent / DocumentEndEvent / nothing, but got ..."); what it can still reject is content - an
+   anchor, tag, tag handle or %YAML version it cannot write.  Proofs/EmitGrammar.v: each of the 18 emitter states with its stack of
+   continuation states is mapped to the recogniser's frames and every step is one transition; entering a block collection is justified by
+   the look-ahead the event queue guarantees *)
+Theorem C05_emitter_accepts_the_event_grammar : forall evs gfin canon allow_uni ind width lb,
+  EmitGrammar.krun [ParserGrammar.GInit] (map EmitGrammar.kind evs) = Some gfin ->
+  EmitGrammar.fine (snd (Emit.emit_all evs (Emit.init canon allow_uni ind width lb))).
+Proof. exact EmitGrammar.emitter_accepts_the_event_grammar. Qed.
+Eval vm_compute in "ASSUME:C05_emitter_accepts_the_event_grammar"%string. Print Assumptions C05_emitter_accepts_the_event_grammar.
+(* KIND C05_emitter_accepts_parser_events : U *)
+(* parser and emitter composed: the events the parser model delivers for ANY token list (C09_parser_events_grammatical), handed to the emitter
+   as events of the same kinds, are never rejected for their structure *)
+Theorem C05_emitter_accepts_parser_events : forall ts fuel evs canon allow_uni ind width lb,
+  map EmitGrammar.kind evs = map EmitGrammar.pkind (map ParseL.e_kind (fst (ParseL.parse_loop fuel [] (ParseL.pinit ts)))) ->
+  EmitGrammar.fine (snd (Emit.emit_all evs (Emit.init canon allow_uni ind width lb))).
+Proof. exact EmitGrammar.emitter_accepts_parser_events. Qed.
+Eval vm_compute in "ASSUME:C05_emitter_accepts_parser_events"%string. Print Assumptions C05_emitter_accepts_parser_events.
+(* KIND C05_structure_and_content : F *)
+(* non-vacuity: a stream outside the grammar IS rejected for its structure, and a grammatical one can still be rejected for content (an alias without anchor) *)
+Example C05_structure_and_content :
+  let s0 := Emit.init false false None None [10%N] in
+  (match snd (Emit.emit_all [Emit.EStreamStart; Emit.ESeqEnd] s0) with Emit.EmitErr c _ => EmitGrammar.content c = false | _ => False end) /\
+  EmitGrammar.krun [ParserGrammar.GInit] (map EmitGrammar.kind [Emit.EStreamStart; Emit.EDocStart false None []; Emit.EAlias None]) <> None /\
+  (match snd (Emit.emit_all [Emit.EStreamStart; Emit.EDocStart false None []; Emit.EAlias None; Emit.EDocEnd false] s0) with Emit.EmitErr c _ => EmitGrammar.content c = true | _ => False end).
+Proof. exact EmitGrammar.structure_and_content. Qed.
 
 (* PARTIAL (FULL: forall v opts, load (dump v opts) ~ v): only the double-quoted scalar layer (the universal fallback style)
    without folding is a theorem.  Value<->node, node<->event and the other four scalar styles are decided by the
